@@ -128,7 +128,9 @@ let handle line =
            let (files, r3) = take (int_of_string n) r2 [] in
            let rec args toks = match toks with a :: v :: r' -> (parse_str a, parse_atom v) :: args r' | _ -> [] in
            let al = args r3 in
-           let arg k = try Some (List.assoc k al) with Not_found -> None in
+           (* the pairs are what was literally GIVEN on the command line; the Namespace is cli_args given (regenerated defaults) *)
+           let given k = try Some (List.assoc k al) with Not_found -> None in
+           let arg k = cli_args given k in
            let b = List.fold_left bapply (new_builder builtin) (cli_ops arg files) in
            let ((b', cs), o) = bcreate_st create_detaches_config b in
            let (shown, allo) = (match o, cs with Some _, Some _ -> show_observed b cs | _, _ -> (show_sections b'.b_sections, "ERR")) in
